@@ -442,12 +442,15 @@ Proof.
     intros s1 r. destruct (_ || _); [apply G_refl|apply IH].
 Qed.
 
+Lemma acked_counts_as_sent_G (s : vsock) : G s (acked_counts_as_sent s).
+Proof. unfold acked_counts_as_sent. destruct (seq_gt _ _); [g_same|apply G_refl]. Qed.
+
 Lemma process_all_G (s : vsock) : sGr s (process_all_incoming_messages cci s).
 Proof.
   unfold process_all_incoming_messages.
   apply sGr_bind; [apply recv_loop_G|].
   intros s1 [r early]. cbv beta iota zeta.
-  match goal with |- context [truncate_front (v_tx ?x) _] =>
+  match goal with |- context [acked_counts_as_sent ?x] =>
     assert (F2 : G s1 x); [|abs_as x F2 s2] end.
   { destruct (_ || _); [|apply G_refl].
     destruct (ss_segs _); [destruct (our_fin_if_unacked _)|];
@@ -455,6 +458,8 @@ Proof.
   eapply sGr_weaken; [exact F2|].
   apply sGr_bind.
   { destruct (0 <? _); [|apply G_refl].
+    eapply sGr_weaken; [apply acked_counts_as_sent_G|].
+    generalize (acked_counts_as_sent s2). intro s2'.
     destruct (truncate_front _ _) as [tx1 tr]. destruct tr; cbn [sGr]; [|g_same].
     destruct (wake_writer tx1) as [tx2 w]. eapply G_trans; [|apply add_wakes_G]. g_same. }
   intros s3 _. destruct (rv_phase _); try apply G_refl.
@@ -934,7 +939,7 @@ Proof.
   pose proof (recv_loop_N (v_inbox s ++ [{| m_hdr := outgoing_header s; m_payload := [] |}]) s
                 on_ack_result_default) as Hl.
   destruct (recv_loop _ _ _ _) as [s1 [r early]|s1 e|]; cbn [sbind rlN] in *; auto.
-  match goal with |- context [truncate_front (v_tx ?x) _] =>
+  match goal with |- context [acked_counts_as_sent ?x] =>
     assert (F2 : v_out x = v_out s1 /\ v_inbox x = v_inbox s1); [|abs_as x F2 s2] end.
   { destruct (_ || _); [|auto].
     destruct (ss_segs _); [destruct (our_fin_if_unacked _)|];
@@ -963,7 +968,10 @@ Proof.
     destruct (calc_pipe _ _ _ _ _) as [[[segs' pipe] recalc]|]; [|exact I].
     apply K0; reflexivity. }
   destruct (0 <? ar_acked_segments r).
-  - destruct (truncate_front _ _) as [tx1 tr]. destruct tr; cbn [sbind].
+  - assert (Ha : v_out (acked_counts_as_sent s2) = v_out s1 /\ v_inbox (acked_counts_as_sent s2) = v_inbox s1)
+      by (unfold acked_counts_as_sent; destruct (seq_gt _ _); auto).
+    revert Ha. generalize (acked_counts_as_sent s2). intros s2' [Ha Ha']. cbv zeta.
+    destruct (truncate_front _ _) as [tx1 tr]. destruct tr; cbn [sbind].
     + destruct (wake_writer tx1) as [tx2 w]. apply K; assumption.
     + cbn [rlN]. discriminate.
   - cbn [sbind]. apply K; assumption.
